@@ -120,3 +120,32 @@ Theorem C16_unknown_iff_nothing_delimits :
     field_size sch d f = Some SUnknown <-> unk_shape sch d f.
 Proof. exact field_unknown_iff. Qed.
 Print Assumptions C16_unknown_iff_nothing_delimits.
+
+(** DECLARATION TOTALS: a packet / struct / group total is Dynamic exactly when some field
+    contribution, the inherited part or the payload is Dynamic and none of them is Unknown;
+    Unknown exactly when one of them is ([contribs] counts a field followed by `_padding_` at
+    the declared padded size, which is Static whatever the field's own class); and the only
+    non-container type that is ever Dynamic is a user-supplied custom field without width. *)
+Theorem C16_declaration_totals_classified :
+  forall (sch : schema) (d : decl) (e : dsizes) (r : size),
+    is_container d = true ->
+    annotate_decl sch d = Some e ->
+    ds_total e = Some r ->
+    (r = SDynamic <->
+     ((exists f, In (f, SDynamic) (contribs sch d (decl_fields d))) \/
+      parent_size sch d = Some SDynamic \/ payload_size_of sch d = Some SDynamic) /\
+     (forall f, ~ In (f, SUnknown) (contribs sch d (decl_fields d))) /\
+     parent_size sch d <> Some SUnknown /\ payload_size_of sch d <> Some SUnknown) /\
+    (r = SUnknown <->
+     (exists f, In (f, SUnknown) (contribs sch d (decl_fields d))) \/
+     parent_size sch d = Some SUnknown \/ payload_size_of sch d = Some SUnknown).
+Proof. exact container_total_class. Qed.
+Print Assumptions C16_declaration_totals_classified.
+
+Theorem C16_only_custom_fields_are_dynamic_leaves :
+  forall (sch : schema) (d : decl) (e : dsizes),
+    is_container d = false ->
+    annotate_decl sch d = Some e ->
+    (ds_total e = Some SDynamic <-> exists i fn, d = DCustomField i None fn).
+Proof. exact leaf_total_dynamic_iff. Qed.
+Print Assumptions C16_only_custom_fields_are_dynamic_leaves.
